@@ -9,6 +9,8 @@ HERE = os.path.dirname(os.path.abspath(__file__))
 OUT = os.path.join(HERE, "..", "src", "c06_gen.rs")
 
 def write_if_changed(path, text):
+    # counterexamples of generated harnesses are replayed through the same playback module mechanism as hand-written ones
+    text = text.rstrip("\n") + '\n\n#[path = "../playback/c06_gen.rs"]\nmod playback;\n'
     try:
         if open(path).read() == text:
             return
